@@ -781,14 +781,13 @@ impl<Writer: Write> Muxer<Writer> {
         let scaled_pts = (pts * MEDIA_TIMESCALE as f64).round();
         let pts_units = scaled_pts as u64;
 
-        if self.first_video_pts.is_none() {
-            self.first_video_pts = Some(pts);
-        }
-
         self.writer
             .write_video_sample(pts_units, data, is_keyframe)
             .map_err(|e| self.convert_mp4_error(e, frame_index))?;
 
+        if self.first_video_pts.is_none() {
+            self.first_video_pts = Some(pts);
+        }
         self.last_video_pts = Some(pts);
         self.video_frame_count += 1;
         Ok(())
@@ -864,14 +863,13 @@ impl<Writer: Write> Muxer<Writer> {
         let scaled_dts = (dts * MEDIA_TIMESCALE as f64).round();
         let dts_units = scaled_dts as u64;
 
-        if self.first_video_pts.is_none() {
-            self.first_video_pts = Some(pts);
-        }
-
         self.writer
             .write_video_sample_with_dts(pts_units, dts_units, data, is_keyframe)
             .map_err(|e| self.convert_mp4_error(e, frame_index))?;
 
+        if self.first_video_pts.is_none() {
+            self.first_video_pts = Some(pts);
+        }
         self.last_video_pts = Some(pts);
         self.last_video_dts = Some(dts);
         self.video_frame_count += 1;
